@@ -608,6 +608,18 @@ func (mr *mrepo) plainBlobs() []string {
 	return out
 }
 
+// manifestBlobs returns digests of present manifests whose blob is still there, sorted.
+func (mr *mrepo) manifestBlobs() []string {
+	out := []string{}
+	for d := range mr.blobs {
+		if mr.mans[d] != nil {
+			out = append(out, d)
+		}
+	}
+	sort.Strings(out)
+	return out
+}
+
 // ---------------------------------------------------------------- file level scan (dir store)
 
 // scanBlobFiles checks that every file under <root>/**/blobs/<alg>/<hex> hashes to its name.
